@@ -81,14 +81,16 @@ func runC04(p *core.Prog, r *core.Report) {
 	r.NotDecided = append(r.NotDecided, "that the selected route equals a reference matcher's choice for every table × path (a value property of the walk; the empty-segment and no-leading-slash conventions are not re-derived)")
 	r.Trusted = append(r.Trusted, "reading a nil map does not panic", "net/http passes ServeHTTP a non-nil *Request with non-nil URL", "go/ssa", "no int overflow on indices")
 
-	serve := p.Method("httpd", "Mux", "ServeHTTP")
-	newMux := p.Func("httpd", "NewMux")
+	serveSrc := p.Method("httpd", "Mux", "ServeHTTP")
+	newMuxSrc := p.Func("httpd", "NewMux")
 	params := p.Named("httpd", "Params")
 	mux := p.Named("httpd", "Mux")
-	if serve == nil || newMux == nil || params == nil || mux == nil {
+	if serveSrc == nil || newMuxSrc == nil || params == nil || mux == nil {
 		r.Fail("ANCHOR", "httpd", "-", "ServeHTTP / NewMux / Params / Mux not found")
 		return
 	}
+	serve := serveSrc // roles are resolved on the source call structure; path rules run on inlined views (below)
+	newMux := p.Inl(newMuxSrc)
 	// roles: the route lookup = function called from ServeHTTP that takes *Params; the registration = function called from Handle with the same tree type
 	var find, parse, methodFn *ssa.Function
 	for _, c := range staticCalls(p).callees[serve] {
@@ -165,25 +167,63 @@ func runC04(p *core.Prog, r *core.Report) {
 	if methodFn != nil {
 		r.Anchor("method_lookup", fnName(methodFn))
 	}
+	// path rules: the route lookup with its tail helpers expanded (the method lookup stays a call: its own rules
+	// speak about it, and the walk's rules about its nil / non-nil edges); ServeHTTP with its helpers expanded
+	find = p.Inl(find, methodFn)
+	findSet = []*ssa.Function{find}
+	isTail = map[*ssa.Function]bool{}
+	serve = p.Inl(serveSrc, sx.OrigFunc(find), methodFn)
+	methodSrc := methodFn
+	if methodFn != nil {
+		methodFn = p.Inl(methodFn)
+	}
+	sameMethod := func(c *ssa.Function) bool { return methodSrc != nil && c != nil && sx.OrigFunc(c) == methodSrc }
 
 	// ---- R1: zones
 	kF, vF := fieldByName(params, "K"), fieldByName(params, "V")
 	get := p.Method("httpd", "Params", "Get")
 	var targets []zoneTarget
 	idField := fieldByName(p.Named("httpd", "Store"), "id")
-	targets = append(targets, zoneTarget{Fn: serve, Assume: []zones.Assumption{{LocField: idField, LocMin: 9, Why: "the pool constructor makes the ID buffer with length 9 and ServeHTTP's reset truncates to 9 (C05-R2, C05-R5)"}}})
+	serveAssume := []zones.Assumption{{LocField: idField, LocMin: 9, Why: "the pool constructor makes the ID buffer with length 9 and ServeHTTP's reset truncates to 9 (C05-R2, C05-R5)"}}
+	// a reset that truncates to the length of an immutable Mux field from which the constructor also builds the buffer
+	// (C05-R2 proves the two lengths equal): len(Mux.F) <= len(Store.id) whenever a Store is in use
+	c05InitImmutable(p, p.ModuleFuncs())
+	idLen := ""
+	if ctor := poolCtor(p); ctor != nil && idField != nil {
+		idLen, _ = symLen(ctorFieldValue(ctor, c05field{p.Named("httpd", "Store"), idField, idField.Name()}))
+	}
+	for _, f := range structFields(mux) {
+		switch f.Type().Underlying().(type) {
+		case *types.Slice, *types.Basic:
+			if idField != nil && idLen == "len(field:Mux."+f.Name()+")" {
+				serveAssume = append(serveAssume, zones.Assumption{LEField: f, GEField: idField, AnyBase: true, Why: "the ID buffer is built from and truncated to Mux." + f.Name() + " (C05-R2)"})
+			}
+		}
+	}
+	targets = append(targets, zoneTarget{Fn: serve, Assume: serveAssume})
 	targets = append(targets, zoneTarget{Fn: find})
 	if methodFn != nil {
 		targets = append(targets, zoneTarget{Fn: methodFn})
 	}
 	if get != nil && kF != nil && vF != nil {
 		// len(K) <= len(V): established by C04-R5 (capture pairing)
-		targets = append(targets, zoneTarget{Fn: get, Assume: []zones.Assumption{{LEField: kF, GEField: vF, Why: "len(K) <= len(V) at handler entry (C04-R5)"}}})
+		targets = append(targets, zoneTarget{Fn: p.Inl(get), Assume: []zones.Assumption{{LEField: kF, GEField: vF, Why: "len(K) <= len(V) at handler entry (C04-R5)"}}})
 	}
 	runZones(p, r, "C04-R1", targets)
 	r.Note("C04-R1 assumptions: Params.Get is analysed under len(K) <= len(V) (justified by C04-R5 + C05-R1); ServeHTTP under len(Store.id) >= 9 at Get (C05-R2/R5)")
 	// nil safety of the Mux fields ServeHTTP dereferences / calls
-	for _, fname := range []string{"root", "relayHandler", "routeNotFound"} {
+	// the pointer- and function-typed Mux fields that ServeHTTP reads
+	var muxDeref []string
+	for _, f := range structFields(mux) {
+		switch f.Type().Underlying().(type) {
+		case *types.Pointer, *types.Signature:
+			if len(sx.FieldRefs([]*ssa.Function{serve}, f)) > 0 {
+				muxDeref = append(muxDeref, f.Name())
+			}
+		}
+	}
+	r.Anchor("mux_fields_dereferenced", strings.Join(muxDeref, ","))
+	for _, fname := range muxDeref {
 		f := fieldByName(mux, fname)
 		if f == nil {
 			continue
@@ -216,8 +256,16 @@ func runC04(p *core.Prog, r *core.Report) {
 	{
 		var relayCalls []ssa.Instruction
 		sx.Instrs(serve, func(in ssa.Instruction) {
-			if c, ok := in.(*ssa.Call); ok && !c.Call.IsInvoke() && sx.StaticCallee(c) == nil && sx.Origins(c.Call.Value)["field:Mux.relayHandler"] {
-				relayCalls = append(relayCalls, in)
+			if c, ok := in.(*ssa.Call); ok && !c.Call.IsInvoke() && sx.StaticCallee(c) == nil {
+				if _, isB := c.Call.Value.(*ssa.Builtin); isB {
+					return
+				}
+				for o := range sx.Origins(c.Call.Value) {
+					if strings.HasPrefix(o, "field:Mux.") {
+						relayCalls = append(relayCalls, in)
+						break
+					}
+				}
 			}
 		})
 		set := map[ssa.Instruction]bool{}
@@ -318,7 +366,7 @@ func runC04(p *core.Prog, r *core.Report) {
 				// `no route` because the method lookup failed after the walk: not part of a step
 				methodKind := false
 				sx.Instrs(find, func(in ssa.Instruction) {
-					if c, ok := in.(*ssa.Call); ok && methodFn != nil && sx.StaticCallee(c) == methodFn {
+					if c, ok := in.(*ssa.Call); ok && sameMethod(sx.StaticCallee(c)) {
 						nilE, _ := sx.NilEdges(c)
 						if len(nilE) > 0 && sx.MustPass(find, nil, ret, sx.Cut{Edges: nilE}) {
 							methodKind = true
@@ -357,15 +405,26 @@ func runC04(p *core.Prog, r *core.Report) {
 			ok := exact != nil && all != nil && len(exact.miss) > 0 && sx.MustPass(methodFn, nil, all.in, sx.Cut{Edges: exact.miss})
 			// and conversely: no path gives up without having consulted the '*' method
 			if ok {
+				onlyExact := func(v ssa.Value) bool {
+					lv := leaves(v)
+					return len(lv) == 1 && lv[0] == exact.value
+				}
 				for _, ret := range sx.Returns(methodFn) {
 					rv := returnValue(ret, 0)
-					fromExact := false
-					for _, lf := range leaves(rv) {
-						if lf == exact.value {
-							fromExact = true
-						}
+					if onlyExact(rv) {
+						continue
 					}
-					if fromExact && len(leaves(rv)) == 1 {
+					// a result merged at the return is judged per incoming path
+					if ph, isPhi := rv.(*ssa.Phi); isPhi && ph.Block() == ret.Block() {
+						for k, e := range ph.Edges {
+							if onlyExact(e) {
+								continue
+							}
+							pred := ph.Block().Preds[k]
+							if !sx.MustPass(methodFn, nil, pred.Instrs[len(pred.Instrs)-1], sx.Cut{Instrs: map[ssa.Instruction]bool{all.in: true}}) {
+								ok = false
+							}
+						}
 						continue
 					}
 					if !sx.MustPass(methodFn, nil, ret, sx.Cut{Instrs: map[ssa.Instruction]bool{all.in: true}}) {
@@ -384,27 +443,29 @@ func runC04(p *core.Prog, r *core.Report) {
 		okRet, nRet := true, 0
 		for _, f := range findSet {
 			for _, ret := range sx.Returns(f) {
-				rv := returnValue(ret, 0)
-				if sx.IsNilConst(rv) {
-					continue
-				}
-				if c, ok := rv.(*ssa.Call); ok && isTail[sx.StaticCallee(c)] {
-					continue
-				}
-				nRet++
-				guarded := false
-				sx.Instrs(f, func(in ssa.Instruction) {
-					c, ok := in.(*ssa.Call)
-					if !ok || methodFn == nil || sx.StaticCallee(c) != methodFn {
-						return
+				for _, rc := range retCases(ret, 0) {
+					rv := rc.Val
+					if sx.IsNilConst(rv) {
+						continue
 					}
-					_, nonNil := sx.NilEdges(c)
-					if len(nonNil) > 0 && sx.MustPass(f, nil, ret, sx.Cut{Edges: nonNil}) {
-						guarded = true
+					if c, ok := rv.(*ssa.Call); ok && isTail[sx.StaticCallee(c)] {
+						continue
 					}
-				})
-				if !guarded {
-					okRet = false
+					nRet++
+					guarded := false
+					sx.Instrs(f, func(in ssa.Instruction) {
+						c, ok := in.(*ssa.Call)
+						if !ok || !sameMethod(sx.StaticCallee(c)) {
+							return
+						}
+						_, nonNil := sx.NilEdges(c)
+						if len(nonNil) > 0 && sx.MustPass(f, nil, rc.At, sx.Cut{Edges: nonNil}) {
+							guarded = true
+						}
+					})
+					if !guarded {
+						okRet = false
+					}
 				}
 			}
 		}
@@ -607,24 +668,27 @@ func runC04(p *core.Prog, r *core.Report) {
 		okK, nK := true, 0
 		for _, f := range findSet {
 			for _, ret := range sx.Returns(f) {
-				rv := returnValue(ret, 0)
-				if sx.IsNilConst(rv) {
-					continue
-				}
-				if c, ok := rv.(*ssa.Call); ok && isTail[sx.StaticCallee(c)] {
-					continue
-				}
-				nK++
-				cut := sx.Cut{Instrs: map[ssa.Instruction]bool{}}
-				sx.Instrs(f, func(in ssa.Instruction) {
-					if st, ok := in.(*ssa.Store); ok {
-						if fa, ok := st.Addr.(*ssa.FieldAddr); ok && sx.FieldOf(fa) == kF && sx.Origins(st.Val)["field:treeNode."+nameListF.Name()] {
-							cut.Instrs[in] = true
-						}
+				for _, rc := range retCases(ret, 0) {
+					rv := rc.Val
+					ret := rc.At
+					if sx.IsNilConst(rv) {
+						continue
 					}
-				})
-				if len(cut.Instrs) == 0 || !sx.MustPass(f, nil, ret, cut) {
-					okK = false
+					if c, ok := rv.(*ssa.Call); ok && isTail[sx.StaticCallee(c)] {
+						continue
+					}
+					nK++
+					cut := sx.Cut{Instrs: map[ssa.Instruction]bool{}}
+					sx.Instrs(f, func(in ssa.Instruction) {
+						if st, ok := in.(*ssa.Store); ok {
+							if fa, ok := st.Addr.(*ssa.FieldAddr); ok && sx.FieldOf(fa) == kF && sx.Origins(st.Val)["field:treeNode."+nameListF.Name()] {
+								cut.Instrs[in] = true
+							}
+						}
+					})
+					if len(cut.Instrs) == 0 || !sx.MustPass(f, nil, ret, cut) {
+						okK = false
+					}
 				}
 			}
 		}
